@@ -25,7 +25,9 @@ func (fgen *funcGen) newICmpInst(ident ir.LocalIdent, old *ast.ICmpInst) (*ir.In
 	case *types.IntType, *types.PointerType:
 		typ = types.I1
 	case *types.VectorType:
-		typ = types.NewVector(xType.Len, types.I1)
+		vtyp := types.NewVector(xType.Len, types.I1)
+		vtyp.Scalable = xType.Scalable
+		typ = vtyp
 	default:
 		panic(fmt.Errorf("invalid icmp operand type; expected *types.IntType, *types.PointerType or *types.VectorType, got %T", xType))
 	}
@@ -44,7 +46,9 @@ func (fgen *funcGen) newFCmpInst(ident ir.LocalIdent, old *ast.FCmpInst) (*ir.In
 	case *types.FloatType:
 		typ = types.I1
 	case *types.VectorType:
-		typ = types.NewVector(xType.Len, types.I1)
+		vtyp := types.NewVector(xType.Len, types.I1)
+		vtyp.Scalable = xType.Scalable
+		typ = vtyp
 	default:
 		panic(fmt.Errorf("invalid fcmp operand type; expected *types.FloatType or *types.VectorType, got %T", xType))
 	}
